@@ -45,8 +45,8 @@ Proof. exact env_rows_refuted_by_partial_recycle. Qed.
 
 (* What is proved of K here: it survives dispatch, validate-pending, hold, release and every
    rejected transaction, in all states.  The other operations follow below, each with its side
-   conditions (define_step is the refuted one; declare_static, amend_step, reset_for_rerun of plan
-   steps and update_hashes on BUILT / OUTDATED files are not covered). *)
+   conditions (define_step is the refuted one; amend_step, reset_for_rerun of plan
+   steps and update_hashes on BUILT / OUTDATED files are not covered).  declare_static is covered below. *)
 Theorem C01_K_preserved_partial :
   forall o s, K_b s = true ->
               (K_safe_op o = true \/ (forall s', step_op o s <> Ok s')) ->
@@ -130,7 +130,8 @@ Proof. exact K_op_exec_end_success. Qed.
    forall cap ops, inv_core_b (run_ops ops (init_st cap)) = true).  [single_producer] speaks of
    ATTACHED files only: a detached file may keep the output edge of a former producer, and K does
    not look at detached outputs.  Only the boolean is imported here, not C09's proofs. *)
-From SV Require Import model.GraphInv proofs.NoStaleInv proofs.NoStaleOps proofs.NoStaleDelete.
+From SV Require Import model.GraphInv proofs.NoStaleInv proofs.NoStaleOps proofs.NoStaleDelete
+     proofs.NoStaleDeclare.
 
 Theorem C01_K_side_conditions_from_C09_invariant :
   forall s, inv_core_b s = true -> unique_labels s /\ single_producer s.
@@ -150,6 +151,16 @@ Proof. exact K_op_reset_interrupted_inv. Qed.
 Theorem C01_K_preserved_by_OpDeleteDetached :
   forall s, inv_core_b s = true -> K_b s = true -> K_b (apply_op s OpDeleteDetached) = true.
 Proof. exact K_op_delete_detached. Qed.
+
+(* Workflow.declare_static_files: every declared path is (re-)created through Trellis.create (a new
+   node, or a detached one re-attached under the new creator with its producer edges cut and its
+   old, detached, creator losing its hash) and put in state UNCONFIRMED.  The file was absent or
+   detached, so no attached SUCCEEDED step used it (K); afterwards it is attached but not usable,
+   and nobody's output. *)
+Theorem C01_K_preserved_by_OpDeclareStatic :
+  forall c paths s, inv_core_b s = true -> K_b s = true ->
+                    K_b (apply_op s (OpDeclareStatic c paths)) = true.
+Proof. exact K_op_declare_static. Qed.
 
 (* Scheduler._reset_step_to_pending (a skip that turned out impossible) of a leaf step:
    reset_for_rerun, the stored hash is dropped, the step goes back to PENDING *)
